@@ -48,13 +48,19 @@ func verifCorpusModel() *cypher.RegularQuery {
 	return q
 }
 
-// VerifC11Copy: Copy of every corpus model - as parsed, and with every list emptied in
-// place (length 0, capacity kept) - is structurally equal to the original and shares no
+// verifMaxLists bounds which single list of a model is emptied (walk order).
+const verifMaxLists = 12
+
+// VerifC11Copy: Copy of every corpus model - as parsed, with every list emptied in place
+// (length 0, capacity kept), and with any one of its first verifMaxLists lists emptied - is structurally equal to the original and shares no
 // pointer cell, slice backing array or map with it.
 func VerifC11Copy() {
 	m := verifCorpusModel()
-	if verifrt.NondetChoice("lists emptied in place", 2) == 1 {
+	switch k := verifrt.NondetChoice("lists emptied in place (0 none, 1 all, k+2 the k-th)", 2+verifMaxLists); {
+	case k == 1:
 		verifrt.EmptySlices(m, verifKindType)
+	case k >= 2:
+		verifrt.Assume(verifrt.EmptyNthSlice(m, k-2, verifKindType))
 	}
 	c := cypher.Copy(m)
 	verifrt.Assert(verifrt.DeepEqual(m, c), "a copy is structurally equal to the original")
